@@ -175,6 +175,7 @@ type Process struct {
 	eventConsumersLock sync.RWMutex
 	eventConsumers     []event.IConsumer
 	subTracer          tracing.ITracer
+	monitorOnce        sync.Once
 }
 
 func (p *Process) Id() id.Id { return p.id }
@@ -602,11 +603,14 @@ func (p *Process) StartWith(ctx context.Context, element schema.FlowNodeInterfac
 	}
 	switch eventNode := flowNode.(type) {
 	case *startEvent:
+		// StartAll cease flow monitor: one per instance (it waits for all start events),
+		// subscribed before the start event fires so that it cannot miss its flow trace
+		p.monitorOnce.Do(func() {
+			sender := p.tracer.RegisterSender()
+			go p.ceaseFlowMonitor(p.subTracer)(ctx, sender)
+		})
 		eventNode.Trigger(ctx)
 
-		// StartAll cease flow monitor
-		sender := p.tracer.RegisterSender()
-		go p.ceaseFlowMonitor(p.subTracer)(ctx, sender)
 		p.tracer.Send(InstantiationTrace{InstanceId: p.id})
 
 	case *throwEvent:
